@@ -815,7 +815,9 @@ fn main() {
         let v = trv_core::load_replay(&p);
         if let Some(ch) = v["history"]["thread_schedule"].as_array() {
             let choices: Vec<usize> = ch.iter().filter_map(|x| x.as_u64().map(|u| u as usize)).collect();
-            match threads::replay(v["config"].as_str().unwrap_or(""), &choices, v["kind"].as_str().unwrap_or("")) {
+            let label = v["config"].as_str().unwrap_or("");
+            let hit = if label.contains("an expired entry, two lookups") { Some(threads::replay_expired(&choices, v["kind"].as_str().unwrap_or(""))) } else { threads::replay(label, &choices, v["kind"].as_str().unwrap_or("")) };
+            match hit {
                 Some(true) => {
                     println!("VIOLATION property=C10 replay={p}");
                     std::process::exit(1);
@@ -877,6 +879,7 @@ fn main() {
     }
     // thread level: all interleavings of the store's critical sections
     threads::run(tier, &mut rep);
+    threads::run_expired(tier, &mut rep);
     rep.require_witness("thread_schedules_with_preemption");
     rep.require_witness("thread_lookup_hit");
     rep.assumptions.push("thread level (engine B): scheduling points are the lock acquisitions of the cache store (repo feature verif-hooks); sequentially consistent memory; the inner service answers at once".into());
